@@ -9,6 +9,10 @@ def pair(rng, cid, c, cb=None):
     enc = ("dd", c, [0xDD, c]) if cb is None else ("ddcb", cb, [0xDD, 0xCB, None, cb])
     la = cases.make_case(rng, cid + "a", enc)
     t = la.split()
+    if rng.chance(1, 6) or (cb is None and c == 0xE3 and rng.chance(1, 2)):
+        # the index register equal to the word on the stack (EX (SP),IX with nothing to exchange, PUSH/POP coincidences)
+        t = with_ix_from_stack(t)
+        la = " ".join(t)
     ix, iy = t[5 + 18], t[5 + 19]
     tb = list(t)
     tb[1] = cid + "b"
@@ -28,6 +32,20 @@ def pair(rng, cid, c, cb=None):
     tc[1] = cid + "c"
     tc[5 + 19] = str((int(iy) + 0x1234) & 0xFFFF)
     return la, " ".join(tb), " ".join(tc)
+
+def with_ix_from_stack(t):
+    sp = int(t[5 + 20])
+    p = 5 + 26 + 7
+    n = int(t[p]); p += 1
+    for _ in range(n):
+        p += 3 + int(t[p + 2])
+    fill = int(t[p]); p += 1
+    nm = int(t[p]); p += 1
+    mem = {int(t[p + 2 * j]): int(t[p + 2 * j + 1]) for j in range(nm)}
+    lo, hi = mem.get(sp, fill), mem.get((sp + 1) & 0xFFFF, fill)
+    t = list(t)
+    t[5 + 18] = str(lo | (hi << 8))
+    return t
 
 def gen(rng, tier):
     lines, meta = [], {}
